@@ -631,3 +631,180 @@ Proof.
   - apply drain_invK; assumption.
   - destruct Hok.
 Qed.
+
+(* ====================================================================== *)
+(* The record invariant alone (no assumption on contents), and generalised to
+   ANY intermediate set of persisted records between the state before and after
+   the cleaner's physical deletions: used for crash points (C04). *)
+
+Lemma drain_invKV_gen m kvf' :
+  Inv m -> InvKV m ->
+  (forall c r, aget kvf' c = Some r -> aget (m_kvf m) c = Some r) ->
+  (forall k v, In v (lget (m_all m) k) -> aget kvf' (v_cid v) = Some v) ->
+  NoDup (map fst kvf') ->
+  InvKV (set_kvf (drain m) kvf').
+Proof.
+  intros I KV Hsub Hlisted Hnd. unfold drain.
+  destruct (fold_clean_job_fields (m_q m) (set_q m [])) as (E1 & _ & _ & E4 & E5 & _ & E7). cbn zeta in *.
+  constructor; unfold stale; cbn [m_kvf m_all m_seq m_nextcid set_kvf]; rewrite ?E1, ?E4, ?E7; cbn [m_seq m_all m_nextcid set_q].
+  - exact Hlisted.
+  - intros c r E. apply Hsub in E. destruct (k_record m KV c r E) as (H1 & H2 & H3 & H4 & H5).
+    repeat split; assumption.
+  - intros c1 c2 r1 r2 H1 H2. apply Hsub in H1. apply Hsub in H2. apply (k_seq_inj m KV c1 c2 r1 r2 H1 H2).
+  - exact Hnd.
+Qed.
+
+Lemma drain_invKV m : Inv m -> InvKV m -> InvKV (drain m).
+Proof.
+  intros I KV.
+  assert (E : m_kvf (drain m) = m_kvf (fold_left clean_job (m_q m) (set_q m []))) by reflexivity.
+  apply (InvKV_ext (set_kvf (drain m) (m_kvf (drain m)))); try reflexivity; try apply N.le_refl.
+  apply drain_invKV_gen; try assumption.
+  - intros c r H. rewrite E in H. apply fold_clean_job_kvf_sub in H. exact H.
+  - intros k v Hv. rewrite E, fold_clean_job_kvf_other; [apply (k_listed m KV k v Hv)|].
+    intros j d Hj Hd Ec. destruct (inv_queue m I j d Hj Hd) as [_ Hne]. apply (Hne k v Hv). symmetry. exact Ec.
+  - rewrite E. apply fold_clean_job_kvf_keys. apply (k_keys m KV).
+Qed.
+
+Lemma gc_invKV_gen m kvf' :
+  Inv m -> InvKV m ->
+  (forall c r, aget kvf' c = Some r -> aget (m_kvf m) c = Some r) ->
+  (forall k v, In v (lget (m_all (gc m)) k) -> aget kvf' (v_cid v) = Some v) ->
+  NoDup (map fst kvf') ->
+  InvKV (set_kvf (gc m) kvf').
+Proof.
+  intros I KV Hsubk Hlisted Hnd.
+  destruct (gc_fields m) as (Es & _ & Eq & _ & Enc & _).
+  assert (A := fun k => gc_all m k I).
+  assert (Hsub : forall k v, In v (lget (m_all (gc m)) k) -> In v (lget (m_all m) k) /\
+                                                            gc_keep (lget (m_all m) k) (gc_horizon m) v = true).
+  { intros k v Hv. rewrite A in Hv. apply filter_In in Hv. exact Hv. }
+  assert (Hstale_main : forall r w, In w (lget (m_all m) (v_key r)) -> is_main w = true -> v_seq r < v_seq w ->
+            exists w', In w' (lget (m_all (gc m)) (v_key r)) /\ is_main w' = true /\ v_seq r < v_seq w').
+  { intros r w Hw Hm Hlt.
+    destruct (main_le_last _ w (inv_sorted m I (v_key r)) Hw Hm) as (w' & Hw' & Hle).
+    exists w'. split; [apply (gc_last_main_kept m _ w' I Hw')|].
+    assert (Hin := last_opt_In _ _ _ Hw'). apply filter_In in Hin. split; [tauto | lia]. }
+  constructor; unfold stale; cbn [m_kvf m_all m_seq m_nextcid set_kvf]; rewrite ?Enc.
+  - exact Hlisted.
+  - intros c r E. apply Hsubk in E. destruct (k_record m KV c r E) as (H1 & H2 & H3 & H4 & H5).
+    split; [exact H1|]. split; [exact H2|]. split; [intros Hm; specialize (H3 Hm); lia|]. split; [exact H4|].
+    destruct H5 as [H5|[H5|(w & Hw & Hm & Hlt)]].
+    + destruct (gc_keep (lget (m_all m) (v_key r)) (gc_horizon m) r) eqn:Ekeep.
+      * left. rewrite A. apply filter_In. auto.
+      * right. right.
+        assert (Hmain : is_main r = true).
+        { unfold gc_keep in Ekeep. apply negb_false_iff in Ekeep. apply existsb_ver_eqb_In in Ekeep.
+          unfold gc_deleted_of in Ekeep.
+          destruct (collect_list v_seq (filter is_main (lget (m_all m) (v_key r))) (gc_horizon m)) as [dd keep] eqn:Ec.
+          apply collect_list_split in Ec. cbn in Ekeep.
+          assert (Hf : In r (filter is_main (lget (m_all m) (v_key r)))) by (rewrite Ec; apply in_or_app; left; exact Ekeep).
+          apply filter_In in Hf. tauto. }
+        destruct (main_le_last _ r (inv_sorted m I (v_key r)) H5 Hmain) as (w' & Hw' & Hle).
+        exists w'. split; [apply (gc_last_main_kept m _ w' I Hw')|].
+        assert (Hin := last_opt_In _ _ _ Hw'). apply filter_In in Hin. split; [tauto|].
+        assert (Hne : r <> w').
+        { intros ->. assert (Hk := gc_last_main_kept m _ w' I Hw'). apply Hsub in Hk. destruct Hk as [_ Hk]. congruence. }
+        destruct (N.eq_dec (v_seq r) (v_seq w')) as [Eq'|]; [|lia]. exfalso. apply Hne.
+        clear -H5 Hin Eq' I. destruct Hin as [Hin _].
+        assert (Hs := inv_sorted m I (v_key r)). revert Hs H5 Hin.
+        generalize (lget (m_all m) (v_key r)). induction l as [|y l IH]; intros Hs Hr Hw; [destruct Hr|].
+        apply sorted_cons_inv in Hs. destruct Hs as [Hs Hf]. rewrite Forall_forall in Hf.
+        destruct Hr as [->|Hr], Hw as [->|Hw]; [reflexivity | | | exact (IH Hs Hr Hw)].
+        -- specialize (Hf w' Hw). lia.
+        -- specialize (Hf r Hr). lia.
+    + right. left. exact H5.
+    + right. right. exact (Hstale_main r w Hw Hm Hlt).
+  - intros c1 c2 r1 r2 H1 H2. apply Hsubk in H1. apply Hsubk in H2. apply (k_seq_inj m KV c1 c2 r1 r2 H1 H2).
+  - exact Hnd.
+Qed.
+
+Lemma gc_kvf_sub m c r : Inv m -> aget (m_kvf (gc m)) c = Some r -> aget (m_kvf m) c = Some r.
+Proof.
+  intros I H. destruct (gc_kvf_view m I) as (m2 & Egc & Ek2 & _).
+  rewrite Egc in H. apply clean_job_kvf_sub in H. rewrite Ek2 in H. exact H.
+Qed.
+
+Lemma gc_kvf_listed m k v :
+  Inv m -> InvKV m -> In v (lget (m_all (gc m)) k) -> aget (m_kvf (gc m)) (v_cid v) = Some v.
+Proof.
+  intros I KV Hv. destruct (gc_kvf_view m I) as (m2 & Egc & Ek2 & _).
+  assert (A := gc_all m k I). assert (Hv' := Hv). rewrite A in Hv'. apply filter_In in Hv'. destruct Hv' as [Hv1 Hv2].
+  rewrite Egc, clean_job_kvf_other; [rewrite Ek2; apply (k_listed m KV k v Hv1)|].
+  intros d Hd E. destruct (gc_deleted_in_all m d I Hd) as (Hd1 & _ & Hd3).
+  assert (d = v) by (eapply (inv_cid_inj m I); eassumption). subst d.
+  destruct (inv_range m I _ _ Hv1) as (_ & _ & Ekey & _). rewrite Ekey in Hd3. congruence.
+Qed.
+
+Lemma gc_invKV m : Inv m -> InvKV m -> InvKV (gc m).
+Proof.
+  intros I KV.
+  apply (InvKV_ext (set_kvf (gc m) (m_kvf (gc m)))); try reflexivity; try apply N.le_refl.
+  apply gc_invKV_gen; try assumption.
+  - intros c r H. exact (gc_kvf_sub m c r I H).
+  - intros k v Hv. exact (gc_kvf_listed m k v I KV Hv).
+  - destruct (gc_kvf_view m I) as (m2 & Egc & Ek2 & _). rewrite Egc. apply clean_job_kvf_keys. rewrite Ek2. apply (k_keys m KV).
+Qed.
+
+Lemma commit_invKV m x :
+  Inv m -> InvKV m -> reg_find (m_reg m) (x_id x) = Some x -> InvKV (fst (commit m x)).
+Proof.
+  intros I KV Hfind. apply reg_find_In in Hfind. destruct Hfind as [Hx _].
+  destruct (inv_reg_range m I x Hx) as (_ & _ & Hpos & _).
+  assert (Hh : x_id x <> 0) by lia.
+  set (h := x_id x) in *.
+  assert (I2 := commit_m2_inv m h I Hh).
+  assert (KV2 : InvKV (commit_m2 m h)).
+  { unfold commit_m2. apply (unlink_invKV m); try reflexivity; try assumption. cbn [m_seq set_seq set_reg]. lia. }
+  rewrite commit_unfold. cbn zeta. fold h.
+  destruct (commit_m0_kept m h) as [-> ->].
+  match goal with |- InvKV (fst (if ?c then _ else _)) => destruct c end; cbn [fst].
+  - apply enqueue_invKV; exact KV2.
+  - apply enqueue_invKV. apply fold_push_committed_invKV; try assumption; [apply commit_kept_cids_NoDup; exact I|].
+    intros f Hf. destruct (In_commit_kept m h f I Hf) as (H1 & H2 & _).
+    change (m_nextcid (commit_m2 m h)) with (m_nextcid m). split.
+    + destruct (inv_range m I _ _ H1) as (_ & _ & _ & H). exact H.
+    + split.
+      * intros k v Hv. exact (owned_excl_cid m h f k v I H1 H2 Hv).
+      * intros job d Hj Hd E. change (m_q (commit_m2 m h)) with (m_q m) in Hj.
+        destruct (inv_queue m I job d Hj Hd) as [_ Hne]. apply (Hne _ _ H1). symmetry. exact E.
+Qed.
+
+Lemma rollback_invKV m h : Inv m -> InvKV m -> InvKV (rollback m h).
+Proof.
+  intros I KV. unfold rollback. destruct (reg_find (m_reg m) h) as [x|] eqn:Hfind; [|assumption].
+  apply reg_find_In in Hfind. destruct Hfind as [Hx Ex].
+  destruct (inv_reg_range m I x Hx) as (_ & _ & Hpos & _).
+  assert (Hh : h <> 0) by lia.
+  apply enqueue_invKV. apply (unlink_invKV m); try reflexivity; try assumption; cbn; lia.
+Qed.
+
+Lemma alloc_invKV m c :
+  InvKV m -> InvKV (set_cont (set_nextcid m (N.succ (m_nextcid m))) c).
+Proof.
+  intros KV. constructor; cbn [m_all m_kvf m_seq m_nextcid set_cont set_nextcid].
+  - apply (k_listed m KV).
+  - intros c0 r E. destruct (k_record m KV c0 r E) as (H1 & H2 & H3 & H4 & H5). repeat split; try assumption; lia.
+  - apply (k_seq_inj m KV).
+  - apply (k_keys m KV).
+Qed.
+
+Theorem mstep_invKV m o : Inv m -> InvKV m -> op_ok m o -> InvKV (fst (mstep m o)).
+Proof.
+  intros I KV Hok. destruct o as [l|h k v|h k|h k|h|h|h| | |]; cbn [mstep].
+  - cbn [fst]. apply (InvKV_ext m); try reflexivity; [cbn; lia | exact KV].
+  - destruct (N.eqb_spec k 0) as [->|Hk]; [assumption|]. cbn [fst].
+    destruct (fresh_cid_free m I) as [F1 F2].
+    apply push_version_invKV; [exact (Inv_set_cont_fresh m v I) | apply alloc_invKV; exact KV | cbn; lia | split; assumption].
+  - cbn [fst]. destruct (fresh_cid_free m I) as [F1 F2].
+    apply push_version_invKV; [exact (Inv_bump_cid m I) | | cbn; lia | split; assumption].
+    exact (alloc_invKV m (m_cont m) KV).
+  - destruct (tx_info m h); assumption.
+  - destruct (tx_info m h); assumption.
+  - destruct (reg_find (m_reg m) h) as [x|] eqn:E; [|assumption].
+    assert (Ex := proj2 (reg_find_In _ _ _ E)). subst h. apply commit_invKV; assumption.
+  - apply rollback_invKV; assumption.
+  - apply gc_invKV; assumption.
+  - apply drain_invKV; assumption.
+  - destruct Hok.
+Qed.
